@@ -13,6 +13,11 @@ run is gate-serial; `side` — concurrent operations that are not terminating ac
 (refused CONNECT of another transport, disconnect() of another client of the namespace, an EVENT
 with ack id of the same client): real threads, not tasks of the model, judged by the oracle.
 
+`half_binary` — the client has sent the header packet of a binary event / ack (`{'ns', 'n' attachments announced,
+'arrived', 'ack'}`) but not all of its attachments when the terminating actions start (not combined with actions that are
+further packets of that client: they would be taken for the missing attachment).  At quiescence `finish()` also walks the
+server's object graph for anything that still names what departed (`trace_left`).
+
 `manager` — which client manager the server has: the plain `Manager` (default) or `'pubsub'`, the in-memory
 `PubSubManager` subclass of harness/world_pubsub.py (one host on its channel; initialised by the server's first
 connection, the listener task is not started: the action `queue` IS the listener thread).  With it `disconnect()`
@@ -250,6 +255,22 @@ class Run:
                                                 'host_id': 'another-host'}))
             m.cursor, m.limit = len(self.chan.msgs) - 1, len(self.chan.msgs)
         self.sid2 = self.mgr.sid_from_eio_sid('T2', '/') if 'T2' in w.socks else None
+        self.half_binary = None
+        if cfg.get('half_binary'):
+            # the client is in the middle of sending a binary event / ack when the terminating actions start: the header
+            # packet has arrived, (some of) its attachments have not
+            if any(a in ('client', 'other_client') for a in cfg['actions']) or 'event' in self.side:
+                raise C.Infra('half_binary: the next packet of the client would be taken for the missing attachment')
+            hb = cfg['half_binary']
+            head = '%d%d-%s%s' % (6 if hb.get('ack') else 5, hb.get('n', 1), '' if hb.get('ns', '/') == '/' else hb['ns'] + ',',
+                                  '1[{"_placeholder":true,"num":0}]' if hb.get('ack')
+                                  else '["ev",{"_placeholder":true,"num":0}]')
+            w.recv('T1', head)
+            for _ in range(hb.get('arrived', 0)):
+                w.recv('T1', b'\x01\x02')
+            self.half_binary = head
+            if self.ev_calls:
+                raise C.Infra('half_binary: the event was dispatched before its last attachment')
         w.sent_all()
         if cfg.get('nested'):
             # pre-emption also at the calls the manager makes to its own methods while the server is
@@ -425,7 +446,19 @@ class Run:
             ei = self.n_model + self.side.index('event')
             side['event'] = {'connected_before_each_step': self.samples.get(ei, []),
                              'handler_runs': len(self.ev_calls), 'acks': acks}
+        # model-free: where the server object still refers to what has departed — the transport id when the transport
+        # was lost, the session ids of the namespaces that were ended (generic walk of the object graph, the one C11 uses;
+        # the scheduler's proxies are taken out first: the walk follows library objects only)
+        w.sio.manager, w.sio.eio = mgr, w.eio
+        from .sched_async import graph_probe
+        gone = sorted(set(self.sids[n] for a in acts for n in MODEL_TASK[a][1]))
+        # (gate-overlapping runs of the configurations without a half-received packet: region of the known finding, judged
+        # by name only — the walk is the expensive part of a run)
+        trace_left = None
+        if self.half_binary or not overlap:
+            trace_left = graph_probe(w.sio).mentions('T1' if 'lost' in acts else '\x00nobody', gone)
         return {
+            'trace_left': trace_left, 'half_binary': self.half_binary,
             'actions': list(acts), 'others': bool(self.cfg.get('others') or 'T2' in w.socks),
             'manager': 'pubsub' if self.pubsub else 'plain', 'listener_contained': sorted(listener_contained),
             'published': [(d.get('method'), d.get('namespace'), d.get('sid') == self.sids[0]) for d in published],
